@@ -191,8 +191,14 @@ impl<'a> UserModel<'a> {
                         .extend_to(sheet, source_row, column, row, column)?;
                 }
 
-                self.model
-                    .set_user_input(sheet, row, column, target_value.to_string())?;
+                // (the value might be auto-linked or remove an existing link)
+                self.set_user_input_with_link_diffs(
+                    sheet,
+                    row,
+                    column,
+                    target_value.to_string(),
+                    &mut diff_list,
+                )?;
 
                 // Compute the new style and set it
                 let new_style = self.model.get_style_for_cell(sheet, source_row, column)?;
@@ -334,8 +340,14 @@ impl<'a> UserModel<'a> {
                         .extend_to(sheet, row, source_column, row, column)?;
                 }
 
-                self.model
-                    .set_user_input(sheet, row, column, target_value.to_string())?;
+                // (the value might be auto-linked or remove an existing link)
+                self.set_user_input_with_link_diffs(
+                    sheet,
+                    row,
+                    column,
+                    target_value.to_string(),
+                    &mut diff_list,
+                )?;
 
                 let new_style = self.model.get_style_for_cell(sheet, row, source_column)?;
                 // Compute the new style and set it
